@@ -1157,6 +1157,9 @@ static char* pki_certificate_nameToString(const KSI_PKICertificate *cert, int ty
 		goto cleanup;
 	}
 
+	/* The name may have none of the elements looked for. */
+	buf[0] = '\0';
+
 	count = 0;
 	while(OID[i] != NULL) {
 		if (type == ISSUER) {
